@@ -8,13 +8,14 @@ import (
 )
 
 // Standard server/client event labeler (E1). Labels:
-//   cb:<Iface>.<Method>        backend / mechanism callback invoked
-//   call:<qualified name>      static call
-//   st:<Type.field>            store to a struct field; also st:<Type.field>=<const>
-//   reply, reply:<code>, reply:<class>xx, reply:dyn   call of (*Conn).writeResponse
-//   drain:<type>               io.Copy(io.Discard|ioutil.Discard, x)
-//   chan-send / chan-recv      channel operations
-//   go:<callee>                go statement
+//
+//	cb:<Iface>.<Method>        backend / mechanism callback invoked
+//	call:<qualified name>      static call
+//	st:<Type.field>            store to a struct field; also st:<Type.field>=<const>
+//	reply, reply:<code>, reply:<class>xx, reply:dyn   call of (*Conn).writeResponse
+//	drain:<type>               io.Copy(io.Discard|ioutil.Discard, x)
+//	chan-send / chan-recv      channel operations
+//	go:<callee>                go statement
 type StdEvents struct {
 	p         *Program
 	callbacks map[*types.Func]string
